@@ -565,7 +565,8 @@ class Program:
                 order += pending
                 break
         structs = [structs[i] for i in order]
-        ifaces_first = [s for s in structs if s.startswith("interface")] + [s for s in structs if not s.startswith("interface")]
+        # struct / enum definitions first: an interface signature may mention a struct instance (Cell__long o)
+        ifaces_first = [s for s in structs if not s.startswith("interface")] + [s for s in structs if s.startswith("interface")]
         fdefs.sort(key=lambda p: p[0])
         return self.plain + "".join(ifaces_first) + "".join(impls) + "".join(f for _, f in fdefs) + main
 
@@ -1299,6 +1300,316 @@ def gen_tuple_program(x, y):
     pr.main = "void main() {\n" + "\n".join(m) + "\n}\n"
     pr.meta = {"family": "tuple-pair", "kinds": ["f<X,Y> vs f<Y,X>", "Box<X> vs Box<Y>", "nth-use"], "fns": list(pr.fn_order), "pair": [x, y]}
     return pr
+
+
+# ====================================================================================== C: run-time type context
+# Generic impl blocks are not instantiated by clone + substitute: all instantiations share ONE method AST and the type
+# parameters are resolved while the method runs, through the TypeContext stack (coq/C11/Context.v).  The programs below are
+# call skeletons over several generic impl blocks: every method observes type names that mention its block's parameters
+# (sizeof(T), sizeof(Box<T>), `Cell<T> c;` ...), before and after calling methods on receivers of OTHER instantiations of
+# the same block (and of other blocks), at any nesting depth, through generic functions in between, with early returns.
+# Three outputs are compared: the model's trace (bin/c11_model CTX, mapped through a measured size table), the generic
+# program on main, the monomorphised twin on main.
+CTX_TYPES = ["char", "short", "int", "long", "long", "int", "short", "bool", "string", "P", "Box<long>"]
+CTX_BLOCKS = {
+    # base -> (type parameters, interface name, fields)
+    "Cell": (["T"], "Sized", [("T", "value"), ("int", "tag")]),
+    "Duo": (["A", "B"], "Sz2", [("A", "first"), ("B", "second"), ("int", "tag")]),
+    "Box": (["E"], "Bsz", [("E", "v"), ("int", "tag")]),
+}
+
+
+def ctx_inst_name(base, args):
+    return "%s<%s>" % (base, ", ".join(args))
+
+
+class CtxProgram:
+    """blocks: base -> list of methods {name, sparams [(pname, ptype)], acts}; fns: name -> {sparams, acts, tt_decl}
+    (generic functions with ONE type parameter TT); calls: main calls (var, rty, method, n, [arg vars])."""
+
+    def __init__(self):
+        self.blocks = {}
+        self.fns = {}
+        self.universe = []
+        self.calls = []
+        self.main_vars = {}      # type text -> variable name
+        self.meta = {}
+
+    # ------------------------------------------------------------ rendering
+    def _render_body(self, params, sparams, acts, is_method):
+        """Cb text of a body and, in parallel, the model's act list (strings for the CTX protocol)."""
+        lines, macts = [], []
+        env = [(pn, pt) for pn, pt in sparams]          # declared type text of every variable in scope (static)
+        uid = [0]
+        rx = re.compile(r"\b(%s)\b" % "|".join(map(re.escape, params + ["TT"]))) if True else None
+
+        def fresh(p):
+            uid[0] += 1
+            return "%s%d" % (p, uid[0])
+
+        def var_of_type(ty):
+            for v, t in env:
+                if t == ty:
+                    return v
+            v = fresh("t")
+            lines.append("    %s %s; %s.tag = 0;" % (ty, v, v))
+            macts.append("D %s %s" % (enc(v), enc(ty)))
+            env.append((v, ty))
+            return v
+        for a in acts:
+            if a[0] == "O":
+                ty, var = a[1], a[2]
+                if var == 0:
+                    lines.append("    println(sizeof(%s));" % ty)
+                elif var == 1:
+                    v = fresh("s")
+                    lines.append("    int %s = sizeof(%s) + n; println(%s - n);" % (v, ty, v))
+                elif var == 2:
+                    lines.append("    println(twice(sizeof(%s)) / 2);" % ty)
+                else:
+                    v = fresh("s")
+                    lines.append("    int %s = 0; if (n >= 0) { %s = sizeof(%s); } println(%s);" % (v, v, ty, v))
+                macts.append("O %s" % enc(ty))
+            elif a[0] == "D":
+                v, ty = a[1], a[2]
+                lines.append("    %s %s; %s.tag = n;" % (ty, v, v))
+                macts.append("D %s %s" % (enc(v), enc(ty)))
+                env.append((v, ty))
+            elif a[0] == "C":
+                v, base, m = a[1], a[2], a[3]
+                md = [x for x in self.blocks[base] if x["name"] == m][0]
+                args = [var_of_type(pt) for _, pt in md["sparams"]]
+                r = fresh("r")
+                lines.append("    int %s = %s.%s(%s);" % (r, v, m, ", ".join(["n - 1"] + args)))
+                macts.append("C %s %s" % (enc(v), enc(m)))
+            elif a[0] == "G":
+                g, targ = a[1], a[2]
+                fd = self.fns[g]
+                args = [var_of_type(re.sub(r"\bTT\b", targ, pt)) for _, pt in fd["sparams"]]
+                r = fresh("r")
+                lines.append("    int %s = %s<%s>(%s);" % (r, g, targ, ", ".join(["n - 1"] + args)))
+                macts.append("G %s" % enc("%s<%s>" % (g, targ)))
+            elif a[0] == "R":
+                lines.append("    if (%d >= n) { return %d; }" % (a[1], a[1]))
+                macts.append("R %d" % a[1])
+        lines.append("    return 9;")
+        return lines, macts
+
+    def to_program(self):
+        """the generic program as a Program (so that the monomorphiser writes the twin), and the CTX request"""
+        pr = Program()
+        mblocks = []
+        used_fn_insts = []
+        for base, (params, iface, fields) in CTX_BLOCKS.items():
+            pr.structs[base] = (params, fields)
+        for base, methods in self.blocks.items():
+            params, iface, fields = CTX_BLOCKS[base]
+            sigs, texts, mm = [], [], []
+            for md in methods:
+                sig = "int %s(%s)" % (md["name"], ", ".join(["int n"] + ["%s %s" % (pt, pn) for pn, pt in md["sparams"]]))
+                lines, macts = self._render_body(params, md["sparams"], md["acts"], True)
+                sigs.append(sig)
+                texts.append("  %s {\n%s\n  }" % (sig, "\n".join(lines)))
+                mm.append((md["name"], md["sparams"], macts))
+            pr.ifaces[iface] = (params, sigs)
+            pr.impls.append((iface, base, params, texts))
+            mblocks.append((base, params, mm))
+        for g, fd in self.fns.items():
+            lines, macts = self._render_body([], fd["sparams"], fd["acts"], False)
+            pr.fns[g] = (["TT"], "int", ", ".join(["int n"] + ["%s %s" % (pt, pn) for pn, pt in fd["sparams"]]), "\n".join(lines))
+            pr.fn_order.append(g)
+            fd["_macts"] = macts
+        # function instances the model needs: closure of the G acts
+        work = []
+        for _, _, mm in mblocks:
+            for _, _, macts in mm:
+                work += [dec(x.split()[1]) for x in macts if x.startswith("G ")]
+        seen = []
+        while work:
+            inst = work.pop()
+            if inst in seen:
+                continue
+            seen.append(inst)
+            g, targ = inst.split("<", 1)[0], inst.split("<", 1)[1][:-1]
+            fd = self.fns[g]
+            macts = []
+            for x in fd["_macts"]:
+                toks = x.split()
+                toks = [toks[0]] + [t if not t.startswith("=") else enc(re.sub(r"\bTT\b", targ, dec(t))) for t in toks[1:]]
+                macts.append(" ".join(toks))
+                if toks[0] == "G":
+                    work.append(dec(toks[1]))
+            sp = [(pn, re.sub(r"\bTT\b", targ, pt)) for pn, pt in fd["sparams"]]
+            mblocks.append((inst, [], [("()", sp, macts)]))
+        m = [P_SETUP.rstrip("\n")]
+        for ty, v in self.main_vars.items():
+            m.append("  %s %s; %s.tag = 1;" % (ty, v, v))
+        for i, (v, rty, meth, n, args) in enumerate(self.calls):
+            m.append("  int q%d = %s.%s(%s);" % (i, v, meth, ", ".join([str(n)] + args)))
+            m.append('  println("--");')
+        pr.main = "void main() {\n" + "\n".join(m) + "\n}\n"
+        pr.meta = dict(self.meta)
+        req = ["CTX", "4000", str(len(mblocks))]
+        for base, params, mm in mblocks:
+            req += [enc(base), str(len(params))] + [enc(p) for p in params] + [str(len(mm))]
+            for name, sp, macts in mm:
+                req += [enc(name), str(len(sp))]
+                for pn, pt in sp:
+                    req += [enc(pn), enc(pt)]
+                req += [str(len(macts))] + macts
+        req.append(str(len(self.calls)))
+        for v, rty, meth, n, args in self.calls:
+            req += [enc(rty), enc(meth), str(n)]
+        pr.ctx_request = " ".join(req)
+        return pr
+
+
+def gen_ctx_program(seed, k, shape=None):
+    rng = rng_for(seed, "c11-ctx", k)
+    cp = CtxProgram()
+    shape = shape or rng.choice(["one-block", "one-block", "two-blocks", "duo", "with-fns", "all"])
+    bases = {"one-block": ["Cell"], "two-blocks": ["Cell", "Box"], "duo": ["Duo", "Cell"], "with-fns": ["Cell"],
+             "all": ["Cell", "Duo", "Box"]}[shape]
+    pool = [t for t in CTX_TYPES]
+    uni = []
+    while len(uni) < rng.randint(2, 3):
+        t = rng.choice(pool)
+        if t not in uni:
+            uni.append(t)
+    # at least two types of different size, so that a wrong binding is visible
+    if not ({"short", "char", "bool"} & set(uni) and {"long", "string", "P", "Box<long>", "int"} & set(uni)):
+        uni = ["short", "long"] + [u for u in uni if u not in ("short", "long")][:1]
+    cp.universe = uni
+
+    flat = [u for u in uni if "<" not in u]       # a nested instance cannot be spelled in a parameter list or in sizeof(...)
+
+    def insts_of(base, pool=None):
+        n = len(CTX_BLOCKS[base][0])
+        return [ctx_inst_name(base, list(t)) for t in itertools.product(pool or uni, repeat=n)]
+    # every instance type is spelled in main (a struct instance needed only inside generic code is a known finding)
+    need_struct = set()
+    for b in ["Cell", "Box", "Duo"]:
+        for it in insts_of(b):
+            if b in bases or b == "Box":
+                need_struct.add(it)
+    nm = {b: rng.randint(3, 4) for b in bases}
+    for b in bases:
+        cp.blocks[b] = [{"name": "m%d" % j, "sparams": [], "acts": []} for j in range(nm[b])]
+    with_fns = shape in ("with-fns", "all")
+    if with_fns:
+        cp.fns["gobs"] = {"sparams": [], "acts": [], "tt_decl": False}
+        cp.fns["gvia"] = {"sparams": [("c", "Cell<TT>")], "acts": [], "tt_decl": True}
+    # struct parameters (concrete instantiations only: a parameter spelled Cell<T> is a known finding)
+    for b in bases:
+        for md in cp.blocks[b]:
+            for j in range(rng.choice([0, 1, 1, 2])):
+                ob = rng.choice(bases)
+                md["sparams"].append(("p%d" % j, rng.choice(insts_of(ob, flat))))
+
+    def type_forms(params):
+        out = []
+        for p in params:
+            out += [p, p, p, "Box<%s>" % p, "%s*" % p, "Duo<%s, long>" % p, "Cell<%s>" % p]
+        if len(params) == 2:
+            out += ["Duo<%s, %s>" % (params[1], params[0]), "Duo<%s, %s>" % (params[0], params[1])]
+        out += [rng.choice(flat), ctx_inst_name("Cell", [rng.choice(flat)])]
+        return out
+
+    def body(params, sparams, depth_guard, own_base):
+        acts = [("R", 0)]
+        env = [("self", own_base, True)] if own_base else []
+        env += [(pn, pt.split("<")[0], False) for pn, pt in sparams]
+        lc = [0]
+        for _ in range(rng.randint(3, 7)):
+            r = rng.random()
+            if r < 0.38:
+                acts.append(("O", rng.choice(type_forms(params)), rng.randint(0, 3)))
+            elif r < 0.50:
+                lc[0] += 1
+                v = "l%d" % lc[0]
+                ob = rng.choice(bases)
+                ops = CTX_BLOCKS[ob][0]
+                if params and rng.random() < 0.6:
+                    # the local's instantiation depends on the type parameters of this block
+                    args = [rng.choice(params + [rng.choice(uni)]) for _ in ops]
+                    if not any(a in params for a in args):
+                        args[0] = rng.choice(params)
+                else:
+                    args = [rng.choice(uni) for _ in ops]
+                if len(ops) > 1:
+                    # a tuple with a nested instance (Duo<Box<long>, int>) is cut at every comma by find_impl_for_struct
+                    args = [a if "<" not in a else rng.choice(flat) for a in args]
+                acts.append(("D", v, ctx_inst_name(ob, args)))
+                env.append((v, ob, False))
+            elif r < 0.85 and env:
+                v, ob, is_self = rng.choice(env)
+                if ob in cp.blocks:
+                    acts.append(("C", v, ob, rng.choice(cp.blocks[ob])["name"]))
+                    if rng.random() < 0.7:
+                        acts.append(("O", rng.choice(type_forms(params)), rng.randint(0, 3)))
+            elif r < 0.93 and with_fns:
+                g = rng.choice(list(cp.fns))
+                if params and not cp.fns[g]["tt_decl"] and rng.random() < 0.4:
+                    targ = rng.choice(params)
+                else:
+                    targ = rng.choice(flat)
+                acts.append(("G", g, targ))
+                acts.append(("O", rng.choice(type_forms(params)), 0))
+            else:
+                acts.append(("R", rng.randint(1, 2)))
+        return acts
+    for b in bases:
+        for md in cp.blocks[b]:
+            md["acts"] = body(CTX_BLOCKS[b][0], md["sparams"], 0, b)
+    if with_fns:
+        # generic functions that call other instantiations of themselves and methods on receivers built from TT
+        cp.fns["gobs"]["acts"] = [("R", 0), ("O", "TT", 0), ("G", "gobs", rng.choice(flat)), ("O", "TT", 1),
+                                  ("O", "Box<TT>", 0)]
+        cp.fns["gvia"]["acts"] = [("R", 0), ("O", "TT", 0), ("C", "c", "Cell", rng.choice(cp.blocks["Cell"])["name"]), ("O", "TT", 0),
+                                  ("D", "lc", "Cell<%s>" % rng.choice(flat)), ("C", "lc", "Cell", rng.choice(cp.blocks["Cell"])["name"]),
+                                  ("G", "gvia", rng.choice(flat)), ("O", "Cell<TT>", 0)]
+    for it in sorted(need_struct):
+        cp.main_vars[it] = "g_" + re.sub(r"[^A-Za-z0-9]+", "_", it).strip("_")
+    # calls from main: every instantiation of every block, in a shuffled order, some twice (n-th use)
+    calls = []
+    for b in bases:
+        for it in insts_of(b):
+            for _ in range(rng.choice([1, 1, 2])):
+                md = rng.choice(cp.blocks[b])
+                calls.append((cp.main_vars[it], it, md["name"], rng.randint(2, 4), [cp.main_vars[pt] for _, pt in md["sparams"]]))
+    rng.shuffle(calls)
+    cp.calls = calls[:10]
+    cp.meta = {"family": "ctx-" + shape, "kinds": ["cross-instantiation method calls", "type context stack"], "fns": list(cp.fns),
+               "universe": uni}
+    return cp
+
+
+def ctx_size_program(names):
+    """a program that prints sizeof of every resolved type name from main (no type context involved); run as its twin,
+    where nested instances have plain names"""
+    pr = Program()
+    for base, (params, iface, fields) in CTX_BLOCKS.items():
+        pr.structs[base] = (params, fields)
+    pr.main = "void main() {\n" + "\n".join("  println(sizeof(%s));" % n for n in names) + "\n}\n"
+    return pr
+
+
+def resolve_requests(seed, n, maxlen):
+    """TypeContext::resolve_complex_type, model vs ast.h: random adversarial names and an exhaustive small scope"""
+    reqs = []
+    for k in range(n):
+        rng = rng_for(seed, "c11-resolve", k)
+        m = [(rng.choice(["T", "U", "A", "B", "a", "int", ""]), rng.choice(["int", "long", "string", "P", "Box<int>", "U", "T", "a b", ""]))
+             for _ in range(rng.randint(0, 3))]
+        name = rand_name(rng) if rng.random() < 0.7 else rng.choice(
+            ["Duo<T, U>", "Duo<T,U>", "Duo< T , U >", "Box<T>*", "T*", "T**", "T[3]", "T[]", "Duo<U, T>[2]", "Box<Cell<T>>", "Duo<T, Box<U>>",
+             "T *", " T", "Map<T, T>", "Box<T>>", "Box<,T>", "Box<T,>", "Box< >", "Q<T>*x", "a[T]", "T<U>"])
+        reqs.append(("resolve", "RESOLVE %d %s %s" % (len(m), " ".join(enc(a) + " " + enc(b) for a, b in m), enc(name))))
+    alpha = ["T", "<", ">", ",", " ", "*", "[", "a"]
+    for ln in range(0, maxlen + 1):
+        for tup in itertools.product(alpha, repeat=ln):
+            reqs.append(("resolve", "RESOLVE 2 %s %s %s %s %s" % (enc("T"), enc("int"), enc("a"), enc("Q<T>"), enc("".join(tup)))))
+    return reqs
 
 
 # ====================================================================================== run
